@@ -733,8 +733,22 @@ def _is_grower(x: ast.AST, name: str) -> Optional[List[ast.AST]]:
     return None
 
 
+_LS_BUSY: Set[tuple] = set()
+
+
 def _local_sources(ctx: Ctx, frame: FuncInfo, fenv, name: str) -> Set[str]:
     """Registry paths whose content flows into local collection `name` of `frame` (bindings and in-place growth)."""
+    key_ = (frame.qual, id(fenv), name)
+    if key_ in _LS_BUSY:
+        return set()  # (`x = list(x)`: a local defined in terms of itself adds nothing new)
+    _LS_BUSY.add(key_)
+    try:
+        return _local_sources_(ctx, frame, fenv, name)
+    finally:
+        _LS_BUSY.discard(key_)
+
+
+def _local_sources_(ctx: Ctx, frame: FuncInfo, fenv, name: str) -> Set[str]:
     sc = ctx.an.scope(frame)
     exprs: List[ast.AST] = []
     for h in sc.defs.get(name, []):
@@ -1400,6 +1414,19 @@ def r_spawner_registry_who(ctx: Ctx, rule: str):
             rep.ob(rule, f"{kind} on {fld} only by {sorted(allowed)}", hosts <= allowed and ctx.in_pool(e.node.func), node=e.node,
                    detail=f"{e.kind} {e.path} on behalf of {sorted(hosts)}")
     rep.floor(rule, "writes of the spawner registries", n, 12)
+    # a bulk `clear()` forgets live spawners too: it may only follow the completed wait for them (gather_and_close awaits every running
+    # spawner first) - cleared earlier, a spawner that is still producing tasks can no longer be found by cancel_group / cancel_all
+    from . import close as CL
+    for fld in META_TABLE:
+        for e in ctx.effects(fields=[fld], kinds=["clear", "maybe-clear"]):
+            if not e.path.startswith("self") or not ctx.in_pool(e.node.func):
+                continue
+            f = e.node.root if e.node.root is not None else e.node.func
+            g = ctx.an.cfg(f)
+            waited = [x for x in CL.gathers(ctx, f) if fld in CL.gather_fields(ctx, f, x) and dominated_by_completion(g, [x], e.node)]
+            rep.ob(rule, f"{fld} is cleared only after its members were awaited (a spawner still running stays findable for cancel_group / cancel_all)",
+                   bool(waited), node=e.node,
+                   detail="" if waited else f"no completed gather over {fld} dominates this clear(): spawners that are still producing tasks are forgotten while they run")
 
 
 # ---------------------------------------------------------------------- counters
